@@ -163,6 +163,8 @@ type Frame struct {
 	calleeBindings []string
 	// havocCallee: the statically known callee whose call is being havocked (nil otherwise)
 	havocCallee *ssa.Function
+	// havocLoop: the loop whose head state is being havocked (nil otherwise)
+	havocLoop *loop
 	fromDefer      bool // this (inlined) activation was started by RunDefers
 	runningDefers  bool // RunDefers of this activation is being executed
 	// outerVars: variables of enclosing functions that this (separately verified) closure does
@@ -1191,6 +1193,12 @@ func (f *Frame) havocState(st *State, w *WriteSet, why string) *State {
 		// code called while holding it (a non-reentrant mutex): the guarded fields of the owner
 		// and the contents of guarded maps keep their values
 		for _, hl := range st.held {
+			if why == "loop" && f.havocLoop != nil && f.eng.loopMayWriteGuarded(f.havocLoop, hl.cells) {
+				// a loop that runs under the lock and writes the guarded state itself: only its
+				// invariants speak about that state at the loop head
+				f.eng.note("guarded state is kept at the head of a loop that runs while holding the lock, except loops whose body stores to fields or maps of the guarded types (type-based scan)")
+				continue
+			}
 			if why == "call" && f.havocCallee != nil && f.eng.mayWriteGuarded(f.havocCallee, hl.cells, map[*ssa.Function]bool{}) {
 				// a helper that is called with the lock held and writes the guarded state itself
 				// (its contract, if any, says what it does to it): nothing is kept for it
@@ -1258,6 +1266,31 @@ func (e *Engine) mayWriteGuarded(fn *ssa.Function, cells []immCell, seen map[*ss
 	if fn.Blocks == nil || fn.Pkg == nil || !strings.HasPrefix(fn.Pkg.Pkg.Path(), strings.TrimSuffix(modPrefix, "/")) {
 		return false
 	}
+	for _, b := range fn.Blocks {
+		for _, in := range b.Instrs {
+			if e.instrMayWriteGuarded(in, cells, seen) {
+				return true
+			}
+		}
+	}
+	return false
+}
+
+// loopMayWriteGuarded: does the body of l contain an instruction that may write a guarded cell?
+func (e *Engine) loopMayWriteGuarded(l *loop, cells []immCell) bool {
+	seen := map[*ssa.Function]bool{}
+	for b := range l.blocks {
+		for _, in := range b.Instrs {
+			if e.instrMayWriteGuarded(in, cells, seen) {
+				return true
+			}
+		}
+	}
+	return false
+}
+
+// instrMayWriteGuarded: the per-instruction part of mayWriteGuarded (also used for loop bodies).
+func (e *Engine) instrMayWriteGuarded(in ssa.Instruction, cells []immCell, seen map[*ssa.Function]bool) bool {
 	isCellType := func(t types.Type) bool {
 		for _, c := range cells {
 			if types.Identical(t, c.typ) {
@@ -1266,37 +1299,33 @@ func (e *Engine) mayWriteGuarded(fn *ssa.Function, cells []immCell, seen map[*ss
 		}
 		return false
 	}
-	for _, b := range fn.Blocks {
-		for _, in := range b.Instrs {
-			switch x := in.(type) {
-			case *ssa.Store:
-				if _, ok := x.Addr.(*ssa.FieldAddr); ok && isCellType(x.Val.Type()) {
-					return true
-				}
-			case *ssa.MapUpdate:
-				if isCellType(x.Map.Type()) {
-					return true
-				}
-			case *ssa.MakeClosure:
-				if cf, ok := x.Fn.(*ssa.Function); ok && e.mayWriteGuarded(cf, cells, seen) {
-					return true
-				}
-			case *ssa.Call:
-				cc := x.Common()
-				if bi, ok := cc.Value.(*ssa.Builtin); ok {
-					if (bi.Name() == "delete" || bi.Name() == "clear") && isCellType(cc.Args[0].Type()) {
-						return true
-					}
-					continue
-				}
-				if cal := cc.StaticCallee(); cal != nil && e.mayWriteGuarded(cal, cells, seen) {
-					return true
-				}
-			case *ssa.Defer:
-				if cal := x.Common().StaticCallee(); cal != nil && e.mayWriteGuarded(cal, cells, seen) {
-					return true
-				}
+	switch x := in.(type) {
+	case *ssa.Store:
+		if _, ok := x.Addr.(*ssa.FieldAddr); ok && isCellType(x.Val.Type()) {
+			return true
+		}
+	case *ssa.MapUpdate:
+		if isCellType(x.Map.Type()) {
+			return true
+		}
+	case *ssa.MakeClosure:
+		if cf, ok := x.Fn.(*ssa.Function); ok && e.mayWriteGuarded(cf, cells, seen) {
+			return true
+		}
+	case *ssa.Call:
+		cc := x.Common()
+		if bi, ok := cc.Value.(*ssa.Builtin); ok {
+			if (bi.Name() == "delete" || bi.Name() == "clear") && isCellType(cc.Args[0].Type()) {
+				return true
 			}
+			return false
+		}
+		if cal := cc.StaticCallee(); cal != nil && e.mayWriteGuarded(cal, cells, seen) {
+			return true
+		}
+	case *ssa.Defer:
+		if cal := x.Common().StaticCallee(); cal != nil && e.mayWriteGuarded(cal, cells, seen) {
+			return true
 		}
 	}
 	return false
@@ -1411,7 +1440,9 @@ func (f *Frame) enterLoop(l *loop, entryReach string, entrySt *State, edges []in
 	}
 	// 2. havoc
 	w := f.loopWrites(l)
+	f.havocLoop = l
 	st := f.havocState(entrySt, w, "loop")
+	f.havocLoop = nil
 	reach := f.ctx.Fresh(fmt.Sprintf("reach_loop%d", l.ordinal), "Bool")
 	f.ctx.Fact(Implies(reach, entryReach))
 	for _, in := range l.head.Instrs {
